@@ -44,4 +44,20 @@ LEVELS = {
                 "after a flush the epoch record is read from storage.  Tied to the code incl. database-operation counts per call.",
         "note": TB + "Single-task semantics; the concurrent read-fill vs write-through race is a recorded limitation (K3), multi-thread runs are a search only.",
     },
+    "C01": {
+        "text": "Proof (Coq) of publish's control flow on the directory model: a batch repeating a label is rejected without effect, a batch of re-submissions returns the unchanged epoch hash, a changing publish advances the epoch by exactly one and returns the new tree's root hash. The functional core - the root hash equals the hash of the canonical trie over exactly the leaves the history prescribes - is checked on every run by recomputing each epoch's root hash from the publish history alone with a specification trie defined independently of the insertion algorithm (bit for bit, both configurations), and by comparing the whole database with the model after every publish.",
+        "note": TB + "PARTIAL: the refinement theorem insertion-model = canonical trie is not proved yet; that part is translation validation (model vs code) plus specification evaluation per run.",
+    },
+    "C02": {
+        "text": "Proof (Coq): unpublished labels are refused; every returned lookup proof reports the label's latest (value, version, epoch) together with the current epoch hash and its existence and marker membership proofs verify against that hash for every tree and hash function. Lookup generation and the full client verifier are modelled and tied to the code (structural equality of proofs, equality of verdicts and results) over random histories with forced power-of-two versions; every label is looked up (single and batched) after queried epochs and compared with an independent truth table.",
+        "note": TB + "PARTIAL: completeness of the freshness (non-membership) part and of the VRF checks is decided by correspondence + oracle.",
+    },
+    "C03": {
+        "text": "Key-history generation and the history verifier (shape checks, per-update checks, marker checks, tombstones) are modelled in Coq and tied to the code on every history proof and verdict (Complete and MostRecent N below/equal/above the number of versions); proved: unpublished labels are refused. The completeness statement itself is decided by the oracle (verified result = truth table) and the correspondence.",
+        "note": TB + "PARTIAL: completeness theorem not yet proved; the marker arithmetic it rests on is C08 (proved).",
+    },
+    "C04": {
+        "text": "Proof (Coq): invalid ranges are refused, an accepted request yields exactly one single-epoch proof per epoch, inconsistent list lengths are rejected by the verifier. The audit walk over the latest tree and the auditor's rebuild are modelled and tied to the code; every epoch pair (incl. s = 0, non-adjacent, ending before the latest epoch) is audited against the published hashes after queried epochs.",
+        "note": TB + "PARTIAL: the frontier/substitution lemma (walk output rebuilds both root hashes) is not yet a theorem; decided by correspondence + oracle.",
+    },
 }
